@@ -1,6 +1,7 @@
 import Ptn.C02.Composite
 import Ptn.C02.SView
 import Ptn.C02.SComposite
+import Ptn.C02.OpsLabels
 /-! The composite edits of `Composite.lean` restore the tree: identifiers, root, parent map and children
 sets are unchanged; the lower node of the pair becomes the first (for the canonical-form move towards
 the parent: the last) child of the upper node.  Core Lean only. -/
@@ -13,11 +14,13 @@ theorem root_of_parent_none {t : TTN} (h : t.WF) {a : Id} {A : NodeS} (hA : t.N 
 
 /-- Splitting the upper node `a` towards its child `b` (specifications of `_split_updated_site` /
     `_build_qr_leg_specs`). -/
-theorem split_down {t t1 : TTN} {a b link : Id} {A : NodeS} {bd : Nat} {opens : List Nat} (h : t.WF)
-    (hA : t.N a = some A) (hb : b ∈ A.children) (hl : t.N link = none)
+theorem split_down {P : Prop} {O : Id → List Axis} {t t1 : TTN} {a b link : Id} {A : NodeS} {bd : Nat}
+    {opens : List Nat} (hx : t.WFX P O)
+    (hA : t.N a = some A) (hb : b ∈ A.children) (hl : t.N link = none) (hop : P → opens = TTN.openIdx A)
     (hs : t.splitNodes a ⟨A.parent, A.children.erase b, opens, A.isRoot⟩ ⟨none, [b], [], false⟩ a link bd
       = some t1) :
-    t1.WF ∧ t1.S = splitS t.S a a link A.parent (A.children.erase b) [b] ∧ t1.root = t.root := by
+    t1.WFX P O ∧ t1.S = splitS t.S a a link A.parent (A.children.erase b) [b] ∧ t1.root = t.root := by
+  have h := hx.wf
   have adm : SplitAdm t a A ⟨A.parent, A.children.erase b, opens, A.isRoot⟩ ⟨none, [b], [], false⟩ a link := by
     refine ⟨hA, Or.inl rfl, Or.inr hl, ?_, ?_⟩
     · simp only
@@ -26,7 +29,8 @@ theorem split_down {t t1 : TTN} {a b link : Id} {A : NodeS} {bd : Nat} {opens : 
     · cases hp : A.parent with
       | none => exact Or.inr ⟨rfl, rfl, rfl, Or.inl ⟨by simp [NodeS.isRoot, hp], rfl⟩⟩
       | some p => exact Or.inl ⟨p, rfl, by simp [NodeS.isRoot, hp], rfl, Or.inl ⟨rfl, rfl⟩⟩
-  refine ⟨split_nodes_wf_aux h adm hs, ?_⟩
+  refine ⟨⟨split_nodes_wf_aux h adm hs, fun hp => split_lwf h (hx.lwf hp) adm hs,
+    fun hp k => (split_open_same h adm hl (hop hp) rfl hs k).trans (hx.op hp k)⟩, ?_⟩
   obtain ⟨a', b', aCh, bCh, hcfg, hS, hR⟩ := split_S_eq h adm hs
   rcases hcfg with ⟨rfl, rfl, rfl, rfl, _⟩ | ⟨_, _, _, _, hc⟩
   · refine ⟨hS, ?_⟩
@@ -37,15 +41,19 @@ theorem split_down {t t1 : TTN} {a b link : Id} {A : NodeS} {bd : Nat} {opens : 
   · simp at hc
 
 /-- Splitting the lower node `a` towards its parent `b`. -/
-theorem split_up {t t1 : TTN} {a b link : Id} {A : NodeS} {bd : Nat} {opens : List Nat} {r : Bool} (h : t.WF)
+theorem split_up {P : Prop} {O : Id → List Axis} {t t1 : TTN} {a b link : Id} {A : NodeS} {bd : Nat}
+    {opens : List Nat} {r : Bool} (hx : t.WFX P O)
     (hA : t.N a = some A) (hp : A.parent = some b) (hl : t.N link = none) (hr : r = false)
+    (hop : P → opens = TTN.openIdx A)
     (hs : t.splitNodes a ⟨none, A.children, opens, r⟩ ⟨some b, [], [], false⟩ a link bd = some t1) :
-    t1.WF ∧ t1.S = splitS t.S a link a (some b) [] A.children ∧ t1.root = t.root := by
+    t1.WFX P O ∧ t1.S = splitS t.S a link a (some b) [] A.children ∧ t1.root = t.root := by
+  have h := hx.wf
   subst hr
   have adm : SplitAdm t a A ⟨none, A.children, opens, false⟩ ⟨some b, [], [], false⟩ a link := by
     refine ⟨hA, Or.inl rfl, Or.inr hl, by simp, ?_⟩
     exact Or.inl ⟨b, hp, rfl, rfl, Or.inr ⟨rfl, rfl⟩⟩
-  refine ⟨split_nodes_wf_aux h adm hs, ?_⟩
+  refine ⟨⟨split_nodes_wf_aux h adm hs, fun hq => split_lwf h (hx.lwf hq) adm hs,
+    fun hq k => (split_open_same h adm hl (hop hq) rfl hs k).trans (hx.op hq k)⟩, ?_⟩
   obtain ⟨a', b', aCh, bCh, hcfg, hS, hR⟩ := split_S_eq h adm hs
   rcases hcfg with ⟨_, _, _, _, hc⟩ | ⟨rfl, rfl, rfl, rfl, _⟩
   · simp at hc
@@ -53,12 +61,14 @@ theorem split_up {t t1 : TTN} {a b link : Id} {A : NodeS} {bd : Nat} {opens : Li
     rw [hR, hp]; simp
 
 /-- Contracting the link into the lower node `b` after `split_down` (either argument order). -/
-theorem contract_link_down {t t1 t' : TTN} {a b link id1 id2 : Id} {A B : NodeS} (h : t.WF) (h1 : t1.WF)
+theorem contract_link_down {P : Prop} {O : Id → List Axis} {t t1 t' : TTN} {a b link id1 id2 : Id}
+    {A B : NodeS} (h : t.WF) (hx1 : t1.WFX P O) (hOl : P → O link = [])
     (hA : t.N a = some A) (hB : t.N b = some B) (hBp : B.parent = some a) (hl : t.N link = none)
     (hS1 : t1.S = splitS t.S a a link A.parent (A.children.erase b) [b]) (hR1 : t1.root = t.root)
     (hids : (id1 = link ∧ id2 = b) ∨ (id1 = b ∧ id2 = link))
     (hc : t1.contractNodes id1 id2 b = some t') :
-    t'.WF ∧ t'.S = promoteS t.S a b ∧ t'.root = t.root := by
+    t'.WFX P O ∧ t'.S = promoteS t.S a b ∧ t'.root = t.root := by
+  have h1 := hx1.wf
   have hSA := TTN.S_eq hA
   have hSB : t.S b = some (some a, B.children) := by rw [TTN.S_eq hB, hBp]
   have hSl : t.S link = none := by simp [TTN.S, hl]
@@ -71,7 +81,9 @@ theorem contract_link_down {t t1 t' : TTN} {a b link id1 id2 : Id} {A B : NodeS}
     rcases hids with ⟨_, e⟩ | ⟨e, _⟩
     · exact Or.inr (Or.inl e.symm)
     · exact Or.inl e.symm
-  refine ⟨contract_nodes_wf_aux h1 hnew hc, ?_⟩
+  refine ⟨⟨contract_nodes_wf_aux h1 hnew hc, fun hq => contract_lwf h1 (hx1.lwf hq) hnew hc,
+    fun hq k => (contract_open_same h1 hids (fun e => hbl e.symm)
+      (by rw [hx1.op hq link]; exact hOl hq) hc k).trans (hx1.op hq k)⟩, ?_⟩
   obtain ⟨pid, cid, gp, Pch, Cch, hP, hC, hpc, hS', hR'⟩ := contract_S_eq h1 hnew hc
   -- the two nodes in the intermediate network
   have hb_notin : b ∉ A.children.erase b := by
@@ -106,13 +118,15 @@ theorem contract_link_down {t t1 t' : TTN} {a b link id1 id2 : Id} {A B : NodeS}
 
 /-- Contracting the link into the upper node `b` after `split_up`: the new child list of `b` depends on the
     argument order of `contract_nodes`. -/
-theorem contract_link_up {t t1 t' : TTN} {a b link id1 id2 : Id} {A B : NodeS} (h : t.WF) (h1 : t1.WF)
+theorem contract_link_up {P : Prop} {O : Id → List Axis} {t t1 t' : TTN} {a b link id1 id2 : Id}
+    {A B : NodeS} (h : t.WF) (hx1 : t1.WFX P O) (hOl : P → O link = [])
     (hA : t.N a = some A) (hB : t.N b = some B) (hAp : A.parent = some b) (hl : t.N link = none)
     (hS1 : t1.S = splitS t.S a link a (some b) [] A.children) (hR1 : t1.root = t.root)
     (hids : (id1 = link ∧ id2 = b) ∨ (id1 = b ∧ id2 = link))
     (hc : t1.contractNodes id1 id2 b = some t') :
-    t'.WF ∧ t'.root = t.root ∧
+    t'.WFX P O ∧ t'.root = t.root ∧
       t'.S = (if id1 = link then promoteS t.S b a else demoteS t.S b a) := by
+  have h1 := hx1.wf
   have hSA : t.S a = some (some b, A.children) := by rw [TTN.S_eq hA, hAp]
   have hSB := TTN.S_eq hB
   have hSl : t.S link = none := by simp [TTN.S, hl]
@@ -125,7 +139,9 @@ theorem contract_link_up {t t1 t' : TTN} {a b link id1 id2 : Id} {A B : NodeS} (
     rcases hids with ⟨_, e⟩ | ⟨e, _⟩
     · exact Or.inr (Or.inl e.symm)
     · exact Or.inl e.symm
-  refine ⟨contract_nodes_wf_aux h1 hnew hc, ?_⟩
+  refine ⟨⟨contract_nodes_wf_aux h1 hnew hc, fun hq => contract_lwf h1 (hx1.lwf hq) hnew hc,
+    fun hq k => (contract_open_same h1 hids hlb
+      (by rw [hx1.op hq link]; exact hOl hq) hc k).trans (hx1.op hq k)⟩, ?_⟩
   obtain ⟨pid, cid, gp, Pch, Cch, hP, hC, hpc, hS', hR'⟩ := contract_S_eq h1 hnew hc
   have hBpar : ¬ B.parent = some a := fun e =>
     h.str.no_two_cycle (a := b) (b := a) (by rw [hSB, e]) hSA
@@ -210,10 +226,13 @@ theorem N_none_of_S {t : TTN} {k : Id} (h : t.S k = none) : t.N k = none := by
 
 /-- **One-site TDVP link update** `_update_link(a, b)`: well-formedness, root, identifiers, parent map and
     children sets are restored; the lower node of the pair becomes the **first child** of the upper one. -/
-theorem link_update_full {t t' : TTN} {a b link : Id} {bd : Nat} (h : t.WF) (hl : t.N link = none)
+theorem link_update_full {P : Prop} {O : Id → List Axis} {t t' : TTN} {a b link : Id} {bd : Nat}
+    (hx : t.WFX P O) (hl : t.N link = none)
     (hs : t.linkUpdate a b link bd = some t') :
-    t'.WF ∧ t'.root = t.root ∧ ∃ A, t.N a = some A ∧
+    t'.WFX P O ∧ t'.root = t.root ∧ ∃ A, t.N a = some A ∧
       ((b ∈ A.children ∧ t'.S = promoteS t.S a b) ∨ (A.parent = some b ∧ t'.S = promoteS t.S b a)) := by
+  have h := hx.wf
+  have hOl : P → O link = [] := fun hq => by rw [← hx.op hq link]; exact openAxes_none hl
   unfold TTN.linkUpdate at hs
   cases hA : dget t.nodes a with
   | none => simp [hA, bind, Option.bind] at hs
@@ -227,16 +246,16 @@ theorem link_update_full {t t' : TTN} {a b link : Id} {bd : Nat} (h : t.WF) (hl 
       | none => simp [hs1] at hs
       | some t1 =>
         simp only [hs1] at hs
-        obtain ⟨w1, S1, R1⟩ := split_down h hAN hb hl hs1
+        obtain ⟨w1, S1, R1⟩ := split_down hx hAN hb hl (fun _ => rfl) hs1
         cases hacc : t1.access link with
         | none => simp [hacc] at hs
         | some r =>
           obtain ⟨t2, T⟩ := r
           simp only [hacc] at hs
-          have w2 := access_wf w1 hacc
+          have w2 := access_wfx w1 hacc
           obtain ⟨S2, R2⟩ := access_S_eq hacc
           obtain ⟨B, hB, hBp⟩ := child_node h hAN hb
-          obtain ⟨w', S', R'⟩ := contract_link_down h w2 hAN hB hBp hl (by rw [S2, S1]) (by rw [R2, R1])
+          obtain ⟨w', S', R'⟩ := contract_link_down h w2 hOl hAN hB hBp hl (by rw [S2, S1]) (by rw [R2, R1])
             (Or.inl ⟨rfl, rfl⟩) hs
           exact ⟨w', R', A, hAN, Or.inl ⟨hb, S'⟩⟩
     · simp only [hb, if_false] at hs
@@ -246,16 +265,16 @@ theorem link_update_full {t t' : TTN} {a b link : Id} {bd : Nat} (h : t.WF) (hl 
         | none => simp [hs1] at hs
         | some t1 =>
           simp only [hs1] at hs
-          obtain ⟨w1, S1, R1⟩ := split_up h hAN hp hl rfl hs1
+          obtain ⟨w1, S1, R1⟩ := split_up hx hAN hp hl rfl (fun _ => rfl) hs1
           cases hacc : t1.access link with
           | none => simp [hacc] at hs
           | some r =>
             obtain ⟨t2, T⟩ := r
             simp only [hacc] at hs
-            have w2 := access_wf w1 hacc
+            have w2 := access_wfx w1 hacc
             obtain ⟨S2, R2⟩ := access_S_eq hacc
             obtain ⟨B, hB, _⟩ := parent_node h hAN hp
-            obtain ⟨w', R', S'⟩ := contract_link_up h w2 hAN hB hp hl (by rw [S2, S1]) (by rw [R2, R1])
+            obtain ⟨w', R', S'⟩ := contract_link_up h w2 hOl hAN hB hp hl (by rw [S2, S1]) (by rw [R2, R1])
               (Or.inl ⟨rfl, rfl⟩) hs
             simp only [if_true] at S'
             exact ⟨w', R', A, hAN, Or.inr ⟨hp, S'⟩⟩
@@ -264,10 +283,13 @@ theorem link_update_full {t t' : TTN} {a b link : Id} {bd : Nat} (h : t.WF) (hl 
 /-- **Centre move of `canonical_form` / `move_orthogonalization_center`**
     (`split_qr_contract_r_to_neighbour(a, b)`): as above, except that a move towards the parent makes `a`
     the **last** child of `b` (the argument order of `contract_nodes` is the other one). -/
-theorem centre_move_full {t t' : TTN} {a b rid : Id} {bd : Nat} (h : t.WF) (hl : t.N rid = none)
+theorem centre_move_full {P : Prop} {O : Id → List Axis} {t t' : TTN} {a b rid : Id} {bd : Nat}
+    (hx : t.WFX P O) (hl : t.N rid = none)
     (hs : t.centreMove a b rid bd = some t') :
-    t'.WF ∧ t'.root = t.root ∧ ∃ A, t.N a = some A ∧
+    t'.WFX P O ∧ t'.root = t.root ∧ ∃ A, t.N a = some A ∧
       ((b ∈ A.children ∧ t'.S = promoteS t.S a b) ∨ (A.parent = some b ∧ t'.S = demoteS t.S b a)) := by
+  have h := hx.wf
+  have hOl : P → O rid = [] := fun hq => by rw [← hx.op hq rid]; exact openAxes_none hl
   unfold TTN.centreMove at hs
   cases hA : dget t.nodes a with
   | none => simp [hA, bind, Option.bind] at hs
@@ -283,9 +305,9 @@ theorem centre_move_full {t t' : TTN} {a b rid : Id} {bd : Nat} (h : t.WF) (hl :
       | none => simp [hs1] at hs
       | some t1 =>
         simp only [hs1] at hs
-        obtain ⟨w1, S1, R1⟩ := split_up h hAN hp hl rfl hs1
+        obtain ⟨w1, S1, R1⟩ := split_up hx hAN hp hl rfl (fun _ => rfl) hs1
         obtain ⟨B, hB, _⟩ := parent_node h hAN hp
-        obtain ⟨w', R', S'⟩ := contract_link_up h w1 hAN hB hp hl S1 R1 (Or.inr ⟨rfl, rfl⟩) hs
+        obtain ⟨w', R', S'⟩ := contract_link_up h w1 hOl hAN hB hp hl S1 R1 (Or.inr ⟨rfl, rfl⟩) hs
         have hne : ¬ b = rid := by intro e; rw [e, hl] at hB; simp at hB
         simp only [hne, if_false] at S'
         exact ⟨w', R', A, hAN, Or.inr ⟨hp, S'⟩⟩
@@ -296,18 +318,26 @@ theorem centre_move_full {t t' : TTN} {a b rid : Id} {bd : Nat} (h : t.WF) (hl :
         | none => simp [hs1] at hs
         | some t1 =>
           simp only [hs1] at hs
-          obtain ⟨w1, S1, R1⟩ := split_down h hAN hb hl hs1
+          obtain ⟨w1, S1, R1⟩ := split_down hx hAN hb hl (fun _ => rfl) hs1
           obtain ⟨B, hB, hBp⟩ := child_node h hAN hb
-          obtain ⟨w', S', R'⟩ := contract_link_down h w1 hAN hB hBp hl S1 R1 (Or.inr ⟨rfl, rfl⟩) hs
+          obtain ⟨w', S', R'⟩ := contract_link_down h w1 hOl hAN hB hBp hl S1 R1 (Or.inr ⟨rfl, rfl⟩) hs
           exact ⟨w', R', A, hAN, Or.inl ⟨hb, S'⟩⟩
       · simp [hb] at hs
 
 /-! ### `legs_before_combination` in the two orientations -/
 
+/-- The open legs that `legs_before_combination(node1, node2)` assigns to `node1` … -/
+def TTN.lbcOpen1 (A B : NodeS) : List Nat := List.range' (A.nvirt + B.nvirt - 2) (A.nlegs - A.nvirt)
+/-- … and to `node2`. -/
+def TTN.lbcOpen2 (A B : NodeS) : List Nat :=
+  List.range' (A.nvirt + B.nvirt - 2 + (A.nlegs - A.nvirt))
+    (A.nlegs + B.nlegs - 2 - (A.nvirt + B.nvirt - 2 + (A.nlegs - A.nvirt)))
+
 theorem lbc_down {t : TTN} {a b : Id} {A B : NodeS} {u v : TTN.LegSpec}
     (hA : t.N a = some A) (hB : t.N b = some B) (hb : b ∈ A.children) (ha : a ∉ B.children)
     (hBp : B.parent = some a) (h : t.legsBeforeCombination a b = some (u, v)) :
-    ∃ o1 o2, u = ⟨A.parent, A.children.erase b, o1, A.isRoot⟩ ∧ v = ⟨none, B.children, o2, false⟩ := by
+    u = ⟨A.parent, A.children.erase b, TTN.lbcOpen1 A B, A.isRoot⟩ ∧
+      v = ⟨none, B.children, TTN.lbcOpen2 A B, false⟩ := by
   unfold TTN.legsBeforeCombination at h
   have hA' : dget t.nodes a = some A := hA
   have hB' : dget t.nodes b = some B := hB
@@ -319,16 +349,17 @@ theorem lbc_down {t : TTN} {a b : Id} {A B : NodeS} {u v : TTN.LegSpec}
   · by_cases hr : A.isRoot = true
     · simp only [hr, if_true, Option.some.injEq, Prod.mk.injEq] at h
       obtain ⟨rfl, rfl⟩ := h
-      exact ⟨_, _, by rw [hr], rfl⟩
+      exact ⟨by rw [hr]; rfl, rfl⟩
     · have hr' : A.isRoot = false := by simpa using hr
       simp only [hr', Bool.false_eq_true, if_false, Option.some.injEq, Prod.mk.injEq] at h
       obtain ⟨rfl, rfl⟩ := h
-      exact ⟨_, _, by rw [hr'], rfl⟩
+      exact ⟨by rw [hr']; rfl, rfl⟩
 
 theorem lbc_up {t : TTN} {a b : Id} {A B : NodeS} {u v : TTN.LegSpec}
     (hA : t.N a = some A) (hB : t.N b = some B) (ha : a ∈ B.children)
     (hAp : A.parent = some b) (h : t.legsBeforeCombination a b = some (u, v)) :
-    ∃ o1 o2, u = ⟨none, A.children, o1, false⟩ ∧ v = ⟨B.parent, B.children.erase a, o2, B.isRoot⟩ := by
+    u = ⟨none, A.children, TTN.lbcOpen1 A B, false⟩ ∧
+      v = ⟨B.parent, B.children.erase a, TTN.lbcOpen2 A B, B.isRoot⟩ := by
   unfold TTN.legsBeforeCombination at h
   have hA' : dget t.nodes a = some A := hA
   have hB' : dget t.nodes b = some B := hB
@@ -340,23 +371,42 @@ theorem lbc_up {t : TTN} {a b : Id} {A B : NodeS} {u v : TTN.LegSpec}
   · by_cases hr : B.isRoot = true
     · simp only [hr, if_true, Option.some.injEq, Prod.mk.injEq] at h
       obtain ⟨rfl, rfl⟩ := h
-      exact ⟨_, _, rfl, by rw [hr]⟩
+      exact ⟨rfl, by rw [hr]; rfl⟩
     · have hr' : B.isRoot = false := by simpa using hr
       simp only [hr', Bool.false_eq_true, if_false, Option.some.injEq, Prod.mk.injEq] at h
       obtain ⟨rfl, rfl⟩ := h
-      exact ⟨_, _, rfl, by rw [hr']⟩
+      exact ⟨rfl, by rw [hr']; rfl⟩
 
-theorem two_site_core {t t1 t2 t' : TTN} {top bot ts id1 id2 : Id} {Tn Bn : NodeS} {bd : Nat}
-    {o1 o2 : List Nat} (h : t.WF)
+/-- Reading two consecutive index ranges behind the virtual legs. -/
+theorem pick_two_ranges (L : Tensor) (tv : Nat) (A B : List Axis) (hd : L.drop tv = A ++ B)
+    (htv : tv ≤ L.length) :
+    pick L (List.range' tv A.length) = A ∧ pick L (List.range' (tv + A.length) B.length) = B := by
+  have hlen : L.length = tv + A.length + B.length := by
+    have := congrArg List.length hd
+    simp only [List.length_drop, List.length_append] at this
+    omega
+  constructor
+  · rw [pick_range' L tv A.length (by omega), hd, List.take_left]
+  · rw [pick_range' L (tv + A.length) B.length (by omega)]
+    have : L.drop (tv + A.length) = B := by
+      have e : L.drop (tv + A.length) = (L.drop tv).drop A.length := by simp [List.drop_drop]
+      rw [e, hd, List.drop_left]
+    rw [this, List.take_length]
+
+theorem two_site_core {P : Prop} {O : Id → List Axis} {t t1 t2 t' : TTN} {top bot ts id1 id2 : Id}
+    {Tn Bn : NodeS} {bd : Nat} {o1 o2 : List Nat} (hx : t.WFX P O)
     (hT : t.N top = some Tn) (hB : t.N bot = some Bn) (hBp : Bn.parent = some top) (hts : t.N ts = none)
     (hids : (id1 = top ∧ id2 = bot) ∨ (id1 = bot ∧ id2 = top))
+    (hopens : P → (id1 = top → o1 = TTN.lbcOpen1 Tn Bn ∧ o2 = TTN.lbcOpen2 Tn Bn) ∧
+                  (id1 = bot → o2 = TTN.lbcOpen1 Bn Tn ∧ o1 = TTN.lbcOpen2 Bn Tn))
     (hc : t.contractNodes id1 id2 ts = some t1)
-    (hw2 : t1.WF → t2.WF) (S2 : t2.S = t1.S) (R2 : t2.root = t1.root)
+    (hw2 : ∀ O', t1.WFX P O' → t2.WFX P O') (S2 : t2.S = t1.S) (R2 : t2.root = t1.root)
     (hs : (id1 = top ∧ t2.splitNodes ts ⟨Tn.parent, Tn.children.erase bot, o1, Tn.isRoot⟩
               ⟨none, Bn.children, o2, false⟩ top bot bd = some t') ∨
           (id1 = bot ∧ t2.splitNodes ts ⟨none, Bn.children, o2, false⟩
               ⟨Tn.parent, Tn.children.erase bot, o1, Tn.isRoot⟩ bot top bd = some t')) :
-    t'.WF ∧ t'.root = t.root ∧ t'.S = promoteS t.S top bot := by
+    t'.WFX P O ∧ t'.root = t.root ∧ t'.S = promoteS t.S top bot := by
+  have h := hx.wf
   have hST := TTN.S_eq hT
   have hSB : t.S bot = some (some top, Bn.children) := by rw [TTN.S_eq hB, hBp]
   have hSts : t.S ts = none := by simp [TTN.S, hts]
@@ -365,6 +415,34 @@ theorem two_site_core {t t1 t2 t' : TTN} {top bot ts id1 id2 : Id} {Tn Bn : Node
   have hbs : ¬ bot = ts := by intro e; rw [e, hts] at hB; simp at hB
   have hnew : ts = id1 ∨ ts = id2 ∨ t.N ts = none := Or.inr (Or.inr hts)
   have w1 := contract_nodes_wf_aux h hnew hc
+  -- the intermediate network at the level of labels
+  let O1 : Id → List Axis := fun k => if k = ts then O id1 ++ O id2 else if k = top ∨ k = bot then [] else O k
+  have hx1 : t1.WFX P O1 := by
+    refine ⟨w1, fun hq => contract_lwf h (hx.lwf hq) hnew hc, ?_⟩
+    intro hq k
+    obtain ⟨pid', cid', hpc', _, _, _, _, _, cnew, cgone, cby⟩ := contract_labels h hnew hc
+    have hset : (pid' = top ∧ cid' = bot) ∨ (pid' = bot ∧ cid' = top) := by
+      rcases hpc' with ⟨e1, e2⟩ | ⟨e1, e2⟩ <;> rcases hids with ⟨f1, f2⟩ | ⟨f1, f2⟩
+      · exact Or.inl ⟨e1.trans f1, e2.trans f2⟩
+      · exact Or.inr ⟨e1.trans f1, e2.trans f2⟩
+      · exact Or.inr ⟨e1.trans f2, e2.trans f1⟩
+      · exact Or.inl ⟨e1.trans f2, e2.trans f1⟩
+    simp only [O1]
+    by_cases k1 : k = ts
+    · rw [k1, cnew, hx.op hq id1, hx.op hq id2]; simp
+    · by_cases k2 : k = top ∨ k = bot
+      · simp only [k1, k2, if_false, if_true]
+        refine (cgone k k1 ?_).2
+        rcases hset with ⟨e1, e2⟩ | ⟨e1, e2⟩
+        · rw [e1, e2]; exact k2
+        · rw [e1, e2]; exact k2.symm
+      · simp only [k1, k2, if_false]
+        have hk : k ≠ pid' ∧ k ≠ cid' := by
+          rcases hset with ⟨e1, e2⟩ | ⟨e1, e2⟩
+          · rw [e1, e2]; exact ⟨fun e => k2 (Or.inl e), fun e => k2 (Or.inr e)⟩
+          · rw [e1, e2]; exact ⟨fun e => k2 (Or.inr e), fun e => k2 (Or.inl e)⟩
+        rw [(cby k k1 hk.1 hk.2).2]; exact hx.op hq k
+  have hx2 := hw2 O1 hx1
   obtain ⟨pid, cid, gp, Pch, Cch, hP, hC, hpc, hS1, hR1⟩ := contract_S_eq h hnew hc
   have hpid : pid = top ∧ cid = bot := by
     rcases hpc with ⟨e1, e2⟩ | ⟨e1, e2⟩ <;> rcases hids with ⟨f1, f2⟩ | ⟨f1, f2⟩
@@ -383,7 +461,7 @@ theorem two_site_core {t t1 t2 t' : TTN} {top bot ts id1 id2 : Id} {Tn Bn : Node
   simp at hP hC
   obtain ⟨rfl, rfl⟩ := hP
   subst hC
-  have w2 := hw2 w1
+  have w2 := hx2.wf
   -- the two-site node
   have e_ts : t2.S ts = some (Tn.parent,
       if id1 = pid then Tn.children.erase cid ++ Bn.children else Bn.children ++ Tn.children.erase cid) := by
@@ -393,16 +471,72 @@ theorem two_site_core {t t1 t2 t' : TTN} {top bot ts id1 id2 : Id} {Tn Bn : Node
   have e_top : t2.N pid = none := N_none_of_S (by rw [S2, hS1]; simp [contractS, htt])
   have e_bot : t2.N cid = none := N_none_of_S (by rw [S2, hS1]; simp [contractS, hbs])
   have hroot2 : t2.root = (if Tn.parent = none then some ts else t.root) := by rw [R2, hR1]
+  -- its logical axes
+  obtain ⟨L, hlogL, hLl⟩ := logical_some w2 hX
+  have hmem : cid ∈ Tn.children := by
+    obtain ⟨B', hB', hm⟩ := parent_node h hB hBp
+    rw [hT] at hB'; simp at hB'; rw [hB']; exact hm
+  have hXnv : X.nvirt = Tn.nvirt + Bn.nvirt - 2 := by
+    have e1 : X.nparents = Tn.nparents := nparents_congr eX.1.symm
+    have e2 : X.children.length = (Tn.children.length - 1) + Bn.children.length := by
+      rw [← eX.2]
+      split <;> simp [List.length_erase_of_mem hmem] <;> omega
+    have e3 : Bn.nparents = 1 := nparents_some hBp
+    have e4 : 0 < Tn.children.length := List.length_pos_of_mem hmem
+    simp only [nvirt_def, e1, e2, e3]
+    omega
+  have hLdrop : P → L.drop X.nvirt = O id1 ++ O id2 := by
+    intro hq
+    have := hx2.op hq ts
+    rw [openAxes_eq hX hlogL] at this
+    rw [this]; simp [O1]
+  have hOlen : P → ∀ k n, t.N k = some n → (O k).length = n.nlegs - n.nvirt := by
+    intro hq k n hn
+    obtain ⟨Lk, hLk, hl⟩ := logical_some h hn
+    rw [← hx.op hq k, openAxes_eq hn hLk]
+    simp [hl, nlegs]
+  have hOts : P → O ts = [] := fun hq => by rw [← hx.op hq ts]; exact openAxes_none hts
   have hfinal : ∀ (outL inL : TTN.LegSpec) (outId inId : Id),
       SplitAdm t2 ts X outL inL outId inId →
       t2.splitNodes ts outL inL outId inId bd = some t' →
       ((outId = pid ∧ inId = cid ∧ outL.childLegs = Tn.children.erase cid ∧ inL.childLegs = Bn.children ∧
-          ¬ (inL.parentLeg.isSome = true ∨ inL.isRoot = true)) ∨
+          ¬ (inL.parentLeg.isSome = true ∨ inL.isRoot = true))
+        ∨
        (inId = pid ∧ outId = cid ∧ inL.childLegs = Tn.children.erase cid ∧ outL.childLegs = Bn.children ∧
           ¬ (outL.parentLeg.isSome = true ∨ outL.isRoot = true))) →
-      t'.WF ∧ t'.root = t.root ∧ t'.S = promoteS t.S pid cid := by
-    intro outL inL outId inId adm hsp hcase
-    refine ⟨split_nodes_wf_aux w2 adm hsp, ?_⟩
+      (P → pick L outL.openLegs = O outId ∧ pick L inL.openLegs = O inId) →
+      t'.WFX P O ∧ t'.root = t.root ∧ t'.S = promoteS t.S pid cid := by
+    intro outL inL outId inId adm hsp hcase hpick
+    have hoi : (outId = pid ∧ inId = cid) ∨ (outId = cid ∧ inId = pid) := by
+      rcases hcase with ⟨c1, c2, _⟩ | ⟨c1, c2, _⟩
+      · exact Or.inl ⟨c1, c2⟩
+      · exact Or.inr ⟨c2, c1⟩
+    have hopx : P → ∀ k, t'.openAxes k = O k := by
+      intro hq k
+      obtain ⟨a, b, _, _, L', hcfg, _, hlogL', _, _, _, _, so, si, _, sid, sby⟩ := split_labels w2 adm hsp
+      rw [hlogL] at hlogL'; simp at hlogL'; subst hlogL'
+      have hab : (a = outId ∧ b = inId) ∨ (a = inId ∧ b = outId) := by
+        rcases hcfg with ⟨e1, e2, _⟩ | ⟨e1, e2, _⟩
+        · exact Or.inl ⟨e1, e2⟩
+        · exact Or.inr ⟨e1, e2⟩
+      by_cases k1 : k = outId
+      · rw [k1, so]; exact (hpick hq).1
+      · by_cases k2 : k = inId
+        · rw [k2, si]; exact (hpick hq).2
+        · have hkab : k ≠ a ∧ k ≠ b := by
+            rcases hab with ⟨e1, e2⟩ | ⟨e1, e2⟩
+            · rw [e1, e2]; exact ⟨k1, k2⟩
+            · rw [e1, e2]; exact ⟨k2, k1⟩
+          by_cases k3 : k = ts
+          · have hts_ab : ts ≠ a ∧ ts ≠ b := by rw [← k3]; exact hkab
+            rw [k3, (sid hts_ab.1 hts_ab.2).2, hOts hq]
+          · rw [(sby k hkab.1 hkab.2 k3).2, hx2.op hq k]
+            have hktb : ¬ (k = pid ∨ k = cid) := by
+              rcases hoi with ⟨e1, e2⟩ | ⟨e1, e2⟩
+              · rw [← e1, ← e2]; exact fun e => e.elim k1 k2
+              · rw [← e1, ← e2]; exact fun e => e.elim k2 k1
+            simp [O1, k3, hktb]
+    refine ⟨⟨split_nodes_wf_aux w2 adm hsp, fun hq => split_lwf w2 (hx2.lwf hq) adm hsp, hopx⟩, ?_⟩
     obtain ⟨a', b', aCh, bCh, hcfg, hS', hR'⟩ := split_S_eq w2 adm hsp
     have hkey : a' = pid ∧ b' = cid ∧ aCh = Tn.children.erase cid ∧ bCh = Bn.children := by
       rcases hcase with ⟨c1, c2, c3, c4, c5⟩ | ⟨c1, c2, c3, c4, c5⟩
@@ -421,33 +555,79 @@ theorem two_site_core {t t1 t2 t' : TTN} {top bot ts id1 id2 : Id} {Tn Bn : Node
       · simp [hg]
     · rw [hS', ← eX.1, S2, hS1]
       exact two_site_S h.str _ hST hSB hSts
+  -- the open legs named by the two specifications, read on `L`
+  have hpicks : P → ∀ (A1 A2 : NodeS), t.N id1 = some A1 → t.N id2 = some A2 →
+      A1.nvirt + A2.nvirt = Tn.nvirt + Bn.nvirt →
+      pick L (TTN.lbcOpen1 A1 A2) = O id1 ∧ pick L (TTN.lbcOpen2 A1 A2) = O id2 := by
+    intro hq A1 A2 h1 h2 hsum
+    have l1 := hOlen hq id1 A1 h1
+    have l2 := hOlen hq id2 A2 h2
+    have v1 := (h.node id1 A1 h1).virt
+    have v2 := (h.node id2 A2 h2).virt
+    have hv2 : 2 ≤ Tn.nvirt + Bn.nvirt := by
+      have e3 : Bn.nparents = 1 := nparents_some hBp
+      have e4 : 0 < Tn.children.length := List.length_pos_of_mem hmem
+      simp only [nvirt_def, e3]; omega
+    have hXv := (w2.node ts X hX).virt
+    have := pick_two_ranges L X.nvirt (O id1) (O id2) (hLdrop hq) (by rw [hLl]; exact hXv)
+    unfold TTN.lbcOpen1 TTN.lbcOpen2
+    have e1 : A1.nvirt + A2.nvirt - 2 = X.nvirt := by rw [hXnv, hsum]
+    have e2 : A1.nlegs - A1.nvirt = (O id1).length := l1.symm
+    have e3 : A1.nlegs + A2.nlegs - 2 - (A1.nvirt + A2.nvirt - 2 + (A1.nlegs - A1.nvirt)) = (O id2).length := by
+      rw [l2]
+      simp only [nlegs] at v1 v2 ⊢
+      omega
+    rw [e3, e1, e2]
+    exact this
   rcases hs with ⟨hid, hsp⟩ | ⟨hid, hsp⟩
   · -- a = top
     have hXc : X.children = Tn.children.erase cid ++ Bn.children := by rw [← eX.2]; simp [hid]
+    have hid2 : id2 = cid := by
+      rcases hids with ⟨_, e⟩ | ⟨e, _⟩
+      · exact e
+      · exact absurd (hid.symm.trans e) htb
     apply hfinal _ _ _ _ ?_ hsp (Or.inl ⟨rfl, rfl, rfl, rfl, by simp⟩)
-    refine ⟨hX, Or.inr e_top, Or.inr e_bot, by rw [hXc], ?_⟩
-    cases hg : Tn.parent with
-    | none =>
-      exact Or.inr ⟨by rw [← eX.1, hg], rfl, rfl, Or.inl ⟨by simp [NodeS.isRoot, hg], rfl⟩⟩
-    | some p =>
-      exact Or.inl ⟨p, by rw [← eX.1, hg], by simp [NodeS.isRoot, hg], rfl, Or.inl ⟨by simp [hg], rfl⟩⟩
+    · intro hq
+      obtain ⟨q1, q2⟩ := (hopens hq).1 hid
+      have := hpicks hq Tn Bn (by rw [hid]; exact hT) (by rw [hid2]; exact hB) rfl
+      simp only
+      rw [q1, q2, ← hid, ← hid2] at *
+      exact this
+    · refine ⟨hX, Or.inr e_top, Or.inr e_bot, by rw [hXc], ?_⟩
+      cases hg : Tn.parent with
+      | none =>
+        exact Or.inr ⟨by rw [← eX.1, hg], rfl, rfl, Or.inl ⟨by simp [NodeS.isRoot, hg], rfl⟩⟩
+      | some p =>
+        exact Or.inl ⟨p, by rw [← eX.1, hg], by simp [NodeS.isRoot, hg], rfl, Or.inl ⟨by simp [hg], rfl⟩⟩
   · -- a = bot
     have hne : ¬ id1 = pid := by rw [hid]; exact fun e => htb e.symm
     have hXc : X.children = Bn.children ++ Tn.children.erase cid := by rw [← eX.2]; simp [hne]
+    have hid2 : id2 = pid := by
+      rcases hids with ⟨e, _⟩ | ⟨_, e⟩
+      · exact absurd (e.symm.trans hid) htb
+      · exact e
     apply hfinal _ _ _ _ ?_ hsp (Or.inr ⟨rfl, rfl, rfl, rfl, by simp⟩)
-    refine ⟨hX, Or.inr e_bot, Or.inr e_top, by rw [hXc], ?_⟩
-    cases hg : Tn.parent with
-    | none =>
-      exact Or.inr ⟨by rw [← eX.1, hg], rfl, rfl, Or.inr ⟨rfl, by simp [NodeS.isRoot, hg]⟩⟩
-    | some p =>
-      exact Or.inl ⟨p, by rw [← eX.1, hg], rfl, by simp [NodeS.isRoot, hg], Or.inr ⟨rfl, by simp [hg]⟩⟩
+    · intro hq
+      obtain ⟨q1, q2⟩ := (hopens hq).2 hid
+      have := hpicks hq Bn Tn (by rw [hid]; exact hB) (by rw [hid2]; exact hT) (Nat.add_comm _ _)
+      simp only
+      rw [q1, q2, ← hid, ← hid2] at *
+      exact this
+    · refine ⟨hX, Or.inr e_bot, Or.inr e_top, by rw [hXc], ?_⟩
+      cases hg : Tn.parent with
+      | none =>
+        exact Or.inr ⟨by rw [← eX.1, hg], rfl, rfl, Or.inr ⟨rfl, by simp [NodeS.isRoot, hg]⟩⟩
+      | some p =>
+        exact Or.inl ⟨p, by rw [← eX.1, hg], rfl, by simp [NodeS.isRoot, hg], Or.inr ⟨rfl, by simp [hg]⟩⟩
 
 /-- **Two-site TDVP update** `_update_two_site_nodes(a, b)`: well-formedness, root, identifiers, parent map
     and children sets are restored; the lower node of the pair becomes the **first child** of the upper. -/
-theorem two_site_full {t t' : TTN} {a b ts : Id} {bd : Nat} (h : t.WF) (hts : t.N ts = none)
+theorem two_site_full {P : Prop} {O : Id → List Axis} {t t' : TTN} {a b ts : Id} {bd : Nat}
+    (hx : t.WFX P O) (hts : t.N ts = none)
     (hs : t.twoSiteUpdate a b ts bd = some t') :
-    t'.WF ∧ t'.root = t.root ∧ ∃ A, t.N a = some A ∧
+    t'.WFX P O ∧ t'.root = t.root ∧ ∃ A, t.N a = some A ∧
       ((b ∈ A.children ∧ t'.S = promoteS t.S a b) ∨ (A.parent = some b ∧ t'.S = promoteS t.S b a)) := by
+  have h := hx.wf
   unfold TTN.twoSiteUpdate at hs
   cases hlbc : t.legsBeforeCombination a b with
   | none => simp [hlbc, bind, Option.bind] at hs
@@ -472,6 +652,7 @@ theorem two_site_full {t t' : TTN} {a b ts : Id} {bd : Nat} (h : t.WF) (hts : t.
         have hmem : cid ∈ Pn.children := by
           obtain ⟨B', hB', hm⟩ := parent_node h hCn hCp
           rw [hPn] at hB'; simp at hB'; rw [hB']; exact hm
+        have hpcne : pid ≠ cid := h.str.parent_ne hC
         rcases hpc with ⟨rfl, rfl⟩ | ⟨rfl, rfl⟩
         · -- a is the parent of b
           have hnot : pid ∉ Cn.children := by
@@ -479,22 +660,26 @@ theorem two_site_full {t t' : TTN} {a b ts : Id} {bd : Nat} (h : t.WF) (hts : t.
             obtain ⟨X, hX, hXp⟩ := child_node h hCn hm
             rw [hPn] at hX; simp at hX; subst hX
             exact h.str.no_two_cycle (a := pid) (b := cid) (by rw [TTN.S_eq hPn, hXp]) hC
-          obtain ⟨o1, o2, rfl, rfl⟩ := lbc_down hPn hCn hmem hnot hCp hlbc
-          obtain ⟨w', R', S'⟩ := two_site_core h hPn hCn hCp hts (Or.inl ⟨rfl, rfl⟩) hc
-            (fun w => access_wf w hacc) (access_S_eq hacc).1 (access_S_eq hacc).2 (Or.inl ⟨rfl, hs⟩)
+          obtain ⟨rfl, rfl⟩ := lbc_down hPn hCn hmem hnot hCp hlbc
+          obtain ⟨w', R', S'⟩ := two_site_core hx hPn hCn hCp hts (Or.inl ⟨rfl, rfl⟩)
+            (fun _ => ⟨fun _ => ⟨rfl, rfl⟩, fun e => absurd e hpcne⟩) hc
+            (fun _ w => access_wfx w hacc) (access_S_eq hacc).1 (access_S_eq hacc).2 (Or.inl ⟨rfl, hs⟩)
           exact ⟨w', R', Pn, hPn, Or.inl ⟨hmem, S'⟩⟩
         · -- b is the parent of a
-          obtain ⟨o1, o2, rfl, rfl⟩ := lbc_up hCn hPn hmem hCp hlbc
-          obtain ⟨w', R', S'⟩ := two_site_core h hPn hCn hCp hts (Or.inr ⟨rfl, rfl⟩) hc
-            (fun w => access_wf w hacc) (access_S_eq hacc).1 (access_S_eq hacc).2 (Or.inr ⟨rfl, hs⟩)
+          obtain ⟨rfl, rfl⟩ := lbc_up hCn hPn hmem hCp hlbc
+          obtain ⟨w', R', S'⟩ := two_site_core hx hPn hCn hCp hts (Or.inr ⟨rfl, rfl⟩)
+            (fun _ => ⟨fun e => absurd e.symm hpcne, fun _ => ⟨rfl, rfl⟩⟩) hc
+            (fun _ w => access_wfx w hacc) (access_S_eq hacc).1 (access_S_eq hacc).2 (Or.inr ⟨rfl, hs⟩)
           exact ⟨w', R', Cn, hCn, Or.inr ⟨hCp, S'⟩⟩
 
 /-- **`contract_and_split_with_parent(a, b)`** of `svd_truncation` (same as the two-site update without the
     intermediate access). -/
-theorem contract_split_full {t t' : TTN} {a b ts : Id} {bd : Nat} (h : t.WF) (hts : t.N ts = none)
+theorem contract_split_full {P : Prop} {O : Id → List Axis} {t t' : TTN} {a b ts : Id} {bd : Nat}
+    (hx : t.WFX P O) (hts : t.N ts = none)
     (hs : t.contractSplit a b ts bd = some t') :
-    t'.WF ∧ t'.root = t.root ∧ ∃ A, t.N a = some A ∧
+    t'.WFX P O ∧ t'.root = t.root ∧ ∃ A, t.N a = some A ∧
       ((b ∈ A.children ∧ t'.S = promoteS t.S a b) ∨ (A.parent = some b ∧ t'.S = promoteS t.S b a)) := by
+  have h := hx.wf
   unfold TTN.contractSplit at hs
   cases hlbc : t.legsBeforeCombination a b with
   | none => simp [hlbc, bind, Option.bind] at hs
@@ -514,19 +699,22 @@ theorem contract_split_full {t t' : TTN} {a b ts : Id} {bd : Nat} (h : t.WF) (ht
       have hmem : cid ∈ Pn.children := by
         obtain ⟨B', hB', hm⟩ := parent_node h hCn hCp
         rw [hPn] at hB'; simp at hB'; rw [hB']; exact hm
+      have hpcne : pid ≠ cid := h.str.parent_ne hC
       rcases hpc with ⟨rfl, rfl⟩ | ⟨rfl, rfl⟩
       · have hnot : pid ∉ Cn.children := by
           intro hm
           obtain ⟨X, hX, hXp⟩ := child_node h hCn hm
           rw [hPn] at hX; simp at hX; subst hX
           exact h.str.no_two_cycle (a := pid) (b := cid) (by rw [TTN.S_eq hPn, hXp]) hC
-        obtain ⟨o1, o2, rfl, rfl⟩ := lbc_down hPn hCn hmem hnot hCp hlbc
-        obtain ⟨w', R', S'⟩ := two_site_core (t2 := t1) h hPn hCn hCp hts (Or.inl ⟨rfl, rfl⟩) hc
-          id rfl rfl (Or.inl ⟨rfl, hs⟩)
+        obtain ⟨rfl, rfl⟩ := lbc_down hPn hCn hmem hnot hCp hlbc
+        obtain ⟨w', R', S'⟩ := two_site_core (t2 := t1) hx hPn hCn hCp hts (Or.inl ⟨rfl, rfl⟩)
+          (fun _ => ⟨fun _ => ⟨rfl, rfl⟩, fun e => absurd e hpcne⟩) hc
+          (fun _ w => w) rfl rfl (Or.inl ⟨rfl, hs⟩)
         exact ⟨w', R', Pn, hPn, Or.inl ⟨hmem, S'⟩⟩
-      · obtain ⟨o1, o2, rfl, rfl⟩ := lbc_up hCn hPn hmem hCp hlbc
-        obtain ⟨w', R', S'⟩ := two_site_core (t2 := t1) h hPn hCn hCp hts (Or.inr ⟨rfl, rfl⟩) hc
-          id rfl rfl (Or.inr ⟨rfl, hs⟩)
+      · obtain ⟨rfl, rfl⟩ := lbc_up hCn hPn hmem hCp hlbc
+        obtain ⟨w', R', S'⟩ := two_site_core (t2 := t1) hx hPn hCn hCp hts (Or.inr ⟨rfl, rfl⟩)
+          (fun _ => ⟨fun e => absurd e.symm hpcne, fun _ => ⟨rfl, rfl⟩⟩) hc
+          (fun _ w => w) rfl rfl (Or.inr ⟨rfl, hs⟩)
         exact ⟨w', R', Cn, hCn, Or.inr ⟨hCp, S'⟩⟩
 
 /-! ### tree equivalence and sequences of such updates -/
@@ -611,8 +799,10 @@ inductive TdvpRun : TTN → List TdvpEvent → TTN → Prop
   | cons {t t1 t' : TTN} {e : TdvpEvent} {es : List TdvpEvent} :
       e.Fresh t → t.event e = some t1 → TdvpRun t1 es t' → TdvpRun t (e :: es) t'
 
-theorem event_structure {t t' : TTN} (h : t.WF) (e : TdvpEvent) (hf : e.Fresh t) (hs : t.event e = some t') :
-    t'.WF ∧ t'.root = t.root ∧ TreeEq t.S t'.S := by
+theorem event_structure {P : Prop} {O : Id → List Axis} {t t' : TTN} (hx : t.WFX P O) (e : TdvpEvent)
+    (hf : e.Fresh t) (hs : t.event e = some t') :
+    t'.WFX P O ∧ t'.root = t.root ∧ TreeEq t.S t'.S := by
+  have h := hx.wf
   have mem_of {top bot : Id} {A B : NodeS} (hB : t.N bot = some B) (hBp : B.parent = some top) :
       ∀ p ch, t.S top = some (p, ch) → bot ∈ ch := by
     intro p ch hs
@@ -627,44 +817,57 @@ theorem event_structure {t t' : TTN} (h : t.WF) (e : TdvpEvent) (hf : e.Fresh t)
       obtain ⟨t1, T⟩ := r
       simp [ha] at hs; subst hs
       obtain ⟨S1, R1⟩ := access_S_eq ha
-      exact ⟨access_wf h ha, R1, by rw [S1]; exact TreeEq.refl _⟩
+      exact ⟨access_wfx hx ha, R1, by rw [S1]; exact TreeEq.refl _⟩
   | link a b l bd =>
-    obtain ⟨w, R, A, hA, hcase⟩ := link_update_full h hf hs
+    obtain ⟨w, R, A, hA, hcase⟩ := link_update_full hx hf hs
     refine ⟨w, R, ?_⟩
     rcases hcase with ⟨hb, S'⟩ | ⟨hp, S'⟩
     · obtain ⟨B, hB, hBp⟩ := child_node h hA hb
       rw [S']; exact treeEq_promote _ _ _ (mem_of (A := A) hB hBp)
     · rw [S']; exact treeEq_promote _ _ _ (mem_of (A := A) hA hp)
   | twoSite a b ts bd =>
-    obtain ⟨w, R, A, hA, hcase⟩ := two_site_full h hf hs
+    obtain ⟨w, R, A, hA, hcase⟩ := two_site_full hx hf hs
     refine ⟨w, R, ?_⟩
     rcases hcase with ⟨hb, S'⟩ | ⟨hp, S'⟩
     · obtain ⟨B, hB, hBp⟩ := child_node h hA hb
       rw [S']; exact treeEq_promote _ _ _ (mem_of (A := A) hB hBp)
     · rw [S']; exact treeEq_promote _ _ _ (mem_of (A := A) hA hp)
   | contractSplit a b ts bd =>
-    obtain ⟨w, R, A, hA, hcase⟩ := contract_split_full h hf hs
+    obtain ⟨w, R, A, hA, hcase⟩ := contract_split_full hx hf hs
     refine ⟨w, R, ?_⟩
     rcases hcase with ⟨hb, S'⟩ | ⟨hp, S'⟩
     · obtain ⟨B, hB, hBp⟩ := child_node h hA hb
       rw [S']; exact treeEq_promote _ _ _ (mem_of (A := A) hB hBp)
     · rw [S']; exact treeEq_promote _ _ _ (mem_of (A := A) hA hp)
   | move a b r bd =>
-    obtain ⟨w, R, A, hA, hcase⟩ := centre_move_full h hf hs
+    obtain ⟨w, R, A, hA, hcase⟩ := centre_move_full hx hf hs
     refine ⟨w, R, ?_⟩
     rcases hcase with ⟨hb, S'⟩ | ⟨hp, S'⟩
     · obtain ⟨B, hB, hBp⟩ := child_node h hA hb
       rw [S']; exact treeEq_promote _ _ _ (mem_of (A := A) hB hBp)
     · rw [S']; exact treeEq_demote _ _ _ (mem_of (A := A) hA hp)
 
-theorem tdvp_run_structure {t t' : TTN} {es : List TdvpEvent} (h : t.WF) (hr : TdvpRun t es t') :
-    t'.WF ∧ t'.root = t.root ∧ TreeEq t.S t'.S := by
+theorem tdvp_run_wfx {P : Prop} {O : Id → List Axis} {t t' : TTN} {es : List TdvpEvent} (hx : t.WFX P O)
+    (hr : TdvpRun t es t') : t'.WFX P O ∧ t'.root = t.root ∧ TreeEq t.S t'.S := by
   induction hr with
-  | nil => exact ⟨h, rfl, TreeEq.refl _⟩
+  | nil => exact ⟨hx, rfl, TreeEq.refl _⟩
   | cons hf hs _ ih =>
-    obtain ⟨w1, R1, E1⟩ := event_structure h _ hf hs
+    obtain ⟨w1, R1, E1⟩ := event_structure hx _ hf hs
     obtain ⟨w2, R2, E2⟩ := ih w1
     exact ⟨w2, R2.trans R1, E1.trans E2⟩
+
+theorem tdvp_run_structure {t t' : TTN} {es : List TdvpEvent} (h : t.WF) (hr : TdvpRun t es t') :
+    t'.WF ∧ t'.root = t.root ∧ TreeEq t.S t'.S := by
+  obtain ⟨w, R, E⟩ := tdvp_run_wfx (TTN.WFX.ofWF h) hr
+  exact ⟨w.wf, R, E⟩
+
+/-- **Any sequence of TDVP events at the level of labels**: the result is well-formed and satisfies the label
+    invariant, root and tree are preserved, and **every node has exactly the open axes it had** (labels, order,
+    dimensions) – only bonds change. -/
+theorem tdvp_run_labels {t t' : TTN} {es : List TdvpEvent} (h : t.WF) (hl : t.LWF) (hr : TdvpRun t es t') :
+    t'.WF ∧ t'.LWF ∧ t'.root = t.root ∧ TreeEq t.S t'.S ∧ ∀ k, t'.openAxes k = t.openAxes k := by
+  obtain ⟨w, R, E⟩ := tdvp_run_wfx (TTN.WFX.ofLWF h hl) hr
+  exact ⟨w.wf, w.lwf trivial, R, E, w.op trivial⟩
 
 /-! ### explicit readings (used by the exported corollaries) -/
 
